@@ -169,6 +169,45 @@ def shared_inodes(d):
     return sorted(out)
 
 
+def build_envshim():
+    src = os.path.join(VERIF, "shim", "envshim.c")
+    out = os.path.join(VERIF, "shim", "envshim.so")
+    if (not os.path.exists(out)) or os.path.getmtime(out) < os.path.getmtime(src):
+        p = subprocess.run(["gcc", "-O1", "-shared", "-fPIC", "-o", out, src, "-ldl"], stdout=subprocess.PIPE, stderr=subprocess.STDOUT, text=True)
+        if p.returncode != 0:
+            sys.stderr.write(p.stdout)
+            raise Broken("envshim.c does not compile")
+    return out
+
+
+ENV_READS_IGNORED = ("VP_", "VPBP_", "RUST_", "LD_", "MALLOC_", "GLIBC_", "LIBC_", "TZ", "TMPDIR", "LANG", "LC_", "LANGUAGE", "NLSPATH")
+ENV_INPUTS = {"CNB_BUILDPACK_DIR", "CNB_TARGET_OS", "CNB_TARGET_ARCH", "CNB_TARGET_ARCH_VARIANT", "CNB_TARGET_DISTRO_NAME", "CNB_TARGET_DISTRO_VERSION"}      # the documented inputs of the phases
+
+
+def filter_env_reads(names):
+    return sorted(n for n in set(names) if n and not n.startswith(ENV_READS_IGNORED) and n not in ENV_INPUTS)
+
+
+def env_reads(mode, requests, work, binary="vpmon"):
+    """Ambient-read monitor: the names of the environment variables an executor asks libc for while it serves `requests`, observed with the
+    LD_PRELOAD library shim/envshim.so. Names that belong to the runtime, the locale machinery or the documented inputs are left out.
+    A workload that finds a name here sets it to something hostile and runs again: its oracle does not know the variable, so any influence shows."""
+    log = os.path.join(work, "envreads.%d.log" % os.getpid())
+    if os.path.exists(log):
+        os.unlink(log)
+    mon = Mon(mode, env={"LD_PRELOAD": build_envshim(), "VP_ENVSHIM_LOG": log}, binary=binary)
+    try:
+        for r in requests:
+            mon.call(r)
+    finally:
+        mon.close()
+    names = set()
+    if os.path.exists(log):
+        names = {l.strip() for l in open(log, errors="replace") if l.strip()}
+        os.unlink(log)
+    return filter_env_reads(names)
+
+
 class ExecutorDied(Broken):
     """The executor process died while executing a request against the code under test (abort, stack overflow, panic).
     Checks that drive libcnb in-process turn this into a violation with the request as witness; uncaught it is BROKEN."""
